@@ -800,10 +800,9 @@ class Model(Object):
                 forward = reaction.forward_variable
                 reverse = reaction.reverse_variable
 
-                if context:
-                    obj_coef = reaction.objective_coefficient
-
-                    if obj_coef != 0:
+                obj_coef = reaction.objective_coefficient
+                if obj_coef != 0:
+                    if context:
                         # Look the objective up when undoing: it may have been
                         # replaced by another objective object in between.
                         context(
@@ -812,14 +811,15 @@ class Model(Object):
                                 {forward: obj_coef, reverse: -obj_coef},
                             )
                         )
-                        # Drop the reaction from the objective explicitly: the
-                        # solver interface may otherwise keep its variables in
-                        # a cached objective expression, and a later objective
-                        # change in the same context would re-add them on exit.
-                        self.solver.objective.set_linear_coefficients(
-                            {forward: 0, reverse: 0}
-                        )
+                    # Drop the reaction from the objective explicitly: the
+                    # solver interface may otherwise keep its variables in a
+                    # cached objective expression, and a later objective change
+                    # inside a context would re-add them when it is undone.
+                    self.solver.objective.set_linear_coefficients(
+                        {forward: 0, reverse: 0}
+                    )
 
+                if context:
                     context(partial(self._populate_solver, [reaction]))
                     context(partial(setattr, reaction, "_model", self))
                     context(partial(self.reactions.add, reaction))
